@@ -1071,12 +1071,7 @@ func (f *Frame) binop(ns *nodeState, x *ssa.BinOp, av, bv Val) Val {
 		f.overflowCheck(ns, r, x.Type(), "subtraction", x.Pos())
 		return Val{T: r}
 	case token.MUL:
-		var r Term
-		if a.K != nil && b.K != nil {
-			r = IntLit(new(big.Int).Mul(a.K, b.K), a.Sort)
-		} else {
-			r = App(a.Sort, "*", a, b)
-		}
+		r := ex.vc.mulT(a, b)
 		f.overflowCheck(ns, r, x.Type(), "multiplication", x.Pos())
 		return Val{T: r}
 	case token.QUO:
